@@ -447,25 +447,48 @@ func identities(x *Exec) []string {
 	return out
 }
 
-func oracleC04(r *OpRun) {
+// execsByQueue returns the executions of each queue in start order. An execution whose queue cannot be
+// told (from its contexts or from the queue content while it ran) is put into every queue as a barrier
+// (Unattributed): relations like "the next execution of this queue" do not reach across it.
+func (r *OpRun) execsByQueue() map[string][]*Exec {
 	byQ := map[string][]*Exec{}
+	var unknown []*Exec
 	for _, x := range r.o.Execs {
 		if len(x.Ctxs) == 0 || isWebhookExec(x) {
 			continue
 		}
 		q := r.queueOf(x)
 		if q == "" || q == "?" {
+			q = x.QueueSeen
+		}
+		if q == "" || q == "?" {
+			unknown = append(unknown, x)
 			continue
 		}
 		byQ[q] = append(byQ[q], x)
 	}
+	for q := range byQ {
+		for _, u := range unknown {
+			b := *u
+			b.Unattributed = true
+			byQ[q] = append(byQ[q], &b)
+		}
+		xs := byQ[q]
+		sort.Slice(xs, func(i, j int) bool { return xs[i].StartSeq < xs[j].StartSeq })
+	}
+	return byQ
+}
+
+func oracleC04(r *OpRun) {
+	byQ := r.execsByQueue()
 	initial := queue.DefaultInitialDelayOnFailedTask
 	for q, xs := range byQ {
 		sort.Slice(xs, func(i, j int) bool { return xs[i].StartSeq < xs[j].StartSeq })
 		for i, x := range xs {
-			if !x.Fail || x.EndSeq == 0 {
+			if !x.Fail || x.EndSeq == 0 || x.Unattributed {
 				continue
 			}
+			nextUnknown := i+1 < len(xs) && xs[i+1].Unattributed // what follows in this queue is not known
 			allFalse, allTrue, known := true, true, true
 			for _, c := range x.Ctxs {
 				a, k := r.ctxAllowFailure(x.Hook, c)
@@ -482,7 +505,7 @@ func oracleC04(r *OpRun) {
 			if i+1 < len(xs) {
 				next = xs[i+1]
 			}
-			if known && allFalse {
+			if known && allFalse && !nextUnknown {
 				simrt.Count("probe:failed-non-allowFailure-execution")
 				if next == nil {
 					if r.quiet {
@@ -507,7 +530,7 @@ func oracleC04(r *OpRun) {
 					r.e.Viol("C04", "F2", "retry-too-early", "queue %q: retry #%d started %v after failed #%d ended, initial delay is %v", q, next.N, d, x.N, initial)
 				}
 			}
-			if known && allTrue {
+			if known && allTrue && !nextUnknown {
 				simrt.Count("probe:failed-allowFailure-execution")
 				if next != nil {
 					ids, nids := identities(x), identities(next)
@@ -573,21 +596,11 @@ func oracleC04(r *OpRun) {
 // them: when that execution fails and the task is run again, the hook's context file starts with
 // the same contexts in the same order (later arrivals may be merged in behind them).
 func oracleC07op(r *OpRun) {
-	byQ := map[string][]*Exec{}
-	for _, x := range r.o.Execs {
-		if len(x.Ctxs) == 0 || isWebhookExec(x) {
-			continue
-		}
-		q := r.queueOf(x)
-		if q == "" || q == "?" {
-			continue
-		}
-		byQ[q] = append(byQ[q], x)
-	}
+	byQ := r.execsByQueue()
 	for q, xs := range byQ {
 		sort.Slice(xs, func(i, j int) bool { return xs[i].StartSeq < xs[j].StartSeq })
 		for i, x := range xs {
-			if !x.Fail || x.EndSeq == 0 || i+1 >= len(xs) {
+			if !x.Fail || x.EndSeq == 0 || i+1 >= len(xs) || x.Unattributed || xs[i+1].Unattributed {
 				continue
 			}
 			ids := identities(x)
